@@ -394,6 +394,7 @@ fn handle(w: &mut World, cap: &mut Capture, line: &str) -> String {
             let text = format!("{}{}e{}", if parts[0] == "1" { "-" } else { "" }, parts[1], parts[2]);
             show_real(text.parse::<f64>().unwrap() as f32)
         }
+        "FUEL" => "ok".to_string(),
         "NEW" => {
             let i: i64 = words[1].parse().unwrap();
             let mut it = Interpreter::<f32>::default();
